@@ -278,6 +278,108 @@ def run(run):
 
     run.guarded("R3", r3)
 
+    def r3_range_end():
+        """compute_range_end(index, left, right) must cover the larger of the two cells when both are present"""
+        f = F.fn("compute_range_end", mod="abstract_domain::mem_region")
+        t = S.Sym(F).term(f["body"])
+
+        class Unknown(Exception):
+            pass
+
+        def which(x):
+            x = S.value(x)
+            if x[0] == "var" and x[1] in ("left", "right"):
+                return x[1]
+            if x[0] == "field" and x[2] == "Some.0":
+                return which(x[1])
+            return None
+
+        def sel(x, pres):
+            """the element(s) an Option/element-valued term denotes under the presence assignment"""
+            x = S.value(x)
+            w = which(x)
+            if w:
+                return {w} if pres[w] else set()
+            if is_call(x, ("or", "or_else", "xor")) and len(x[2]) == 2:
+                a = sel(x[2][0], pres)
+                return a if a else sel(x[2][1], pres)
+            if is_call(x, ("and",)) and len(x[2]) == 2:
+                return sel(x[2][1], pres) if sel(x[2][0], pres) else set()
+            if is_call(x, ("unwrap", "expect", "unwrap_or_default", "cloned", "copied", "as_ref", "unwrap_unchecked")):
+                return sel(x[2][0], pres)
+            raise Unknown(fmt(x))
+
+        def sizes(x, pres):
+            x = S.value(x)
+            h = x[0]
+            if h == "lit":
+                return set()
+            if h == "var":
+                if x[1] == "index":
+                    return set()
+                raise Unknown(fmt(x))
+            if h == "bin":
+                return sizes(x[2], pres) | sizes(x[3], pres)
+            if h == "cast":
+                return sizes(x[1], pres)
+            if is_call(x, ("from", "into", "max", "min", "add", "saturating_add")):
+                out = set()
+                for a in x[2]:
+                    out |= sizes(a, pres)
+                return out
+            if is_call(x, "bytesize"):
+                return sel(x[2][0], pres)
+            if h == "match" and x[1][0] == "tuple" and len(x[1][1]) == 2:
+                for pat, g, b in x[2]:
+                    alts = []
+                    for alt in pat.split(" | "):
+                        alt = alt.strip()
+                        if not (alt.startswith("(") and alt.endswith(")")):
+                            continue
+                        depth, cut = 0, None
+                        for i, ch in enumerate(alt[1:-1]):
+                            if ch in "({[":
+                                depth += 1
+                            elif ch in ")}]":
+                                depth -= 1
+                            elif ch == "," and depth == 0:
+                                cut = i
+                                break
+                        if cut is None:
+                            continue
+                        alts.append((alt[1:-1][:cut].strip(), alt[1:-1][cut + 1:].strip()))
+                    for k, (l, r) in enumerate(alts):
+                        ok_l = l.startswith("_") or (l.startswith("Some") and pres["left"]) or (l.startswith("None") and not pres["left"])
+                        ok_r = r.startswith("_") or (r.startswith("Some") and pres["right"]) or (r.startswith("None") and not pres["right"])
+                        if ok_l and ok_r and g is None:
+                            if k == 0:
+                                return sizes(b, pres)
+                            # the arm body was normalised with the bindings of the first alternative: an or-pattern binds the
+                            # same names in every alternative, here at the mirrored position
+                            l0, r0 = alts[0]
+                            mirrored = l0.startswith("Some") != l.startswith("Some") or r0.startswith("Some") != r.startswith("Some")
+                            if mirrored:
+                                sw = sizes(b, {"left": pres["right"], "right": pres["left"]})
+                                return {"left" if w == "right" else "right" for w in sw}
+                            return sizes(b, pres)
+                raise Unknown("no arm for presence %s" % pres)
+            if h == "ite":
+                raise Unknown(fmt(x))
+            raise Unknown(fmt(x))
+
+        want = {(True, True): {"left", "right"}, (True, False): {"left"}, (False, True): {"right"}}
+        try:
+            bad = []
+            for (pl, pr), w in want.items():
+                got = sizes(t, {"left": pl, "right": pr})
+                if got != w:
+                    bad.append("left %s, right %s: end computed from the size of %s, must cover %s" % ("present" if pl else "absent", "present" if pr else "absent", sorted(got) or "nothing", sorted(w)))
+            run.check("R3", "compute_range_end|covers-both-cells", not bad, "the occupied range of a zipped entry must extend over the larger of the two cells; " + "; ".join(bad), F.loc(f["body"]))
+        except Unknown as e:
+            run.undecided("R3", "compute_range_end|covers-both-cells", "outside vocabulary: %s" % e, F.loc(f["body"]))
+
+    run.guarded("R3", r3_range_end)
+
     def r4():
         n = 0
         for f in F.fns:
